@@ -3,9 +3,12 @@ package c14
 import (
 	"bytes"
 	"context"
+	"crypto/sha256"
+	"encoding/hex"
 	"fmt"
 	"sort"
 	"strings"
+	"sync"
 	"testing"
 	"time"
 
@@ -19,6 +22,10 @@ import (
 
 // C14 — the block store behaves like a height-indexed map, atomically and durably.
 // Explicit-state BFS over operation histories on the real DefaultStore over the logging datastore double.
+// Two searches share runHistory and the map model: "base" (three fixed block variants per height whose signature
+// argument always equals header.Signature, plus height/state/metadata writes and crashes) and "relations" (saves and
+// resaves whose arguments are spelled out as shapes, so that every relation between header.Signature, the signature
+// argument, header.DataHash and the data — equal, different, empty — occurs in every order on one height and across two).
 
 var signer = world.NewFixedSigner("c14")
 
@@ -51,6 +58,88 @@ func mkBlock(height uint64, variant int) blk {
 	return blk{sh, d, sig}
 }
 
+// shape spells out the ARGUMENTS of one SaveBlockData call, so that every relation between them is enumerated:
+//
+//	hv header: 0 = A (DataHash = commitment of tx list T_A), 1 = B (DataHash = commitment of T_B, other time),
+//	           2 = E (DataHash = the commitment of "no transactions", what the producer puts into an empty block)
+//	hs header.Signature: index into sigPool (0 = empty)
+//	sa the signature ARGUMENT: index into sigPool (0 = empty) — equal to / different from / empty vs header.Signature
+//	dv data: 0 = T_A without metadata (the producer's early save), 1 = T_A with metadata, 2 = T_B with metadata,
+//	         3 = no transactions and no metadata (marshals to an empty value), 4 = no transactions, with metadata
+//
+// Transaction lists and signatures are the same at every height, so equal records also occur across heights.
+type shape struct{ hv, hs, sa, dv int }
+
+var sigPool = []types.Signature{nil, types.Signature("signature-P"), types.Signature("signature-Q")}
+
+const (
+	nHdr  = 3
+	nData = 5
+)
+
+var emptyDataHash = (&types.Data{}).DACommitment()
+
+func shapeTxs(which int) types.Txs {
+	switch which {
+	case 0:
+		return types.Txs{types.Tx("tx-a")}
+	case 1:
+		return types.Txs{types.Tx("tx-b"), types.Tx("x")}
+	}
+	return make(types.Txs, 0)
+}
+
+// dataMatches: the data argument is the one header.DataHash commits to.
+func (sh shape) dataMatches() bool {
+	switch sh.hv {
+	case 0:
+		return sh.dv == 0 || sh.dv == 1
+	case 1:
+		return sh.dv == 2
+	}
+	return sh.dv == 3 || sh.dv == 4
+}
+
+func (sh shape) String() string {
+	return fmt.Sprintf("hdr=%c,hdr.sig=%s,sigarg=%s,data=%s", "ABE"[sh.hv], []string{"none", "P", "Q"}[sh.hs], []string{"none", "P", "Q"}[sh.sa],
+		[]string{"Ta-nometa", "Ta", "Tb", "empty-nometa", "empty"}[sh.dv])
+}
+
+func mkShaped(height uint64, sh shape) blk {
+	tm := uint64(1000 + height)
+	var dataHash types.Hash
+	switch sh.hv {
+	case 0:
+		dataHash = (&types.Data{Txs: shapeTxs(0)}).DACommitment()
+	case 1:
+		dataHash = (&types.Data{Txs: shapeTxs(1)}).DACommitment()
+		tm += 500
+	default:
+		dataHash = append(types.Hash(nil), emptyDataHash...)
+	}
+	hd := types.Header{
+		BaseHeader:      types.BaseHeader{Height: height, Time: tm, ChainID: "c14"},
+		DataHash:        dataHash,
+		ProposerAddress: signer.Addr(),
+		AppHash:         []byte{byte(height)},
+	}
+	d := &types.Data{}
+	switch sh.dv {
+	case 0, 1:
+		d.Txs = shapeTxs(0)
+	case 2:
+		d.Txs = shapeTxs(1)
+	default:
+		d.Txs = shapeTxs(2)
+	}
+	if sh.dv == 1 || sh.dv == 2 || sh.dv == 4 {
+		d.Metadata = &types.Metadata{ChainID: "c14", Height: height, Time: tm, LastDataHash: []byte{7, byte(sh.dv)}}
+	}
+	hsig := append(types.Signature(nil), sigPool[sh.hs]...)
+	arg := append(types.Signature(nil), sigPool[sh.sa]...)
+	return blk{&types.SignedHeader{Header: hd, Signature: hsig, Signer: types.Signer{PubKey: signer.Pub(), Address: signer.Addr()}}, d, arg}
+}
+
 type action struct {
 	kind string // save, crashsave, height, state, meta, reopen
 	h    uint64
@@ -58,13 +147,27 @@ type action struct {
 	k    int
 	key  string
 	val  []byte
+	sh   *shape // save / crashsave with spelled-out arguments (relations search); nil = one of the three fixed variants
+}
+
+func (a action) block() blk {
+	if a.sh != nil {
+		return mkShaped(a.h, *a.sh)
+	}
+	return mkBlock(a.h, a.v)
 }
 
 func (a action) String() string {
 	switch a.kind {
 	case "save":
+		if a.sh != nil {
+			return fmt.Sprintf("save(h=%d,%s)", a.h, *a.sh)
+		}
 		return fmt.Sprintf("save(h=%d,v=%d)", a.h, a.v)
 	case "crashsave":
+		if a.sh != nil {
+			return fmt.Sprintf("save(h=%d,%s)+crash-before-write-%d", a.h, *a.sh, a.k)
+		}
 		return fmt.Sprintf("save(h=%d,v=%d)+crash-before-write-%d", a.h, a.v, a.k)
 	case "height":
 		return fmt.Sprintf("setHeight(%d)", a.h)
@@ -111,6 +214,118 @@ func alphabet(maxH uint64, metaKeys []string) []action {
 	return as
 }
 
+func allShapes() []shape {
+	var out []shape
+	for hv := 0; hv < nHdr; hv++ {
+		for dv := 0; dv < nData; dv++ {
+			for hs := range sigPool {
+				for sa := range sigPool {
+					out = append(out, shape{hv, hs, sa, dv})
+				}
+			}
+		}
+	}
+	return out
+}
+
+// axisShapes: the full signature relation (header.Signature × argument) on one non-empty and one empty block whose
+// data matches the header.
+func axisShapes() []shape {
+	var out []shape
+	for _, hd := range [][2]int{{0, 1}, {2, 3}} {
+		for hs := range sigPool {
+			for sa := range sigPool {
+				out = append(out, shape{hd[0], hs, sa, hd[1]})
+			}
+		}
+	}
+	return out
+}
+
+// relAlphabet: saves with every argument relation on the heights in full, the signature axis on the heights in axis,
+// reopen, and a crash before the k-th durable write (k < 4) of every save (or of the signature-axis saves only) on the
+// heights in crash.
+func relAlphabet(full, axis, crash []uint64, crashAxisOnly bool) []action {
+	var as []action
+	shapesAt := map[uint64][]shape{}
+	for _, h := range full {
+		shapesAt[h] = allShapes()
+	}
+	for _, h := range axis {
+		shapesAt[h] = axisShapes()
+	}
+	for _, h := range append(append([]uint64(nil), full...), axis...) {
+		for _, sh := range shapesAt[h] {
+			sh := sh
+			as = append(as, action{kind: "save", h: h, sh: &sh})
+		}
+	}
+	as = append(as, action{kind: "reopen"})
+	for _, h := range crash {
+		shs := shapesAt[h]
+		if crashAxisOnly {
+			shs = axisShapes()
+		}
+		for _, sh := range shs {
+			for k := 0; k < 4; k++ {
+				sh := sh
+				as = append(as, action{kind: "crashsave", h: h, sh: &sh, k: k})
+			}
+		}
+	}
+	return as
+}
+
+// tagsOf: features of a history that a finding could be keyed on.
+func tagsOf(name string, acts []action, hist []int) []string {
+	set := map[string]bool{"search:" + name: true}
+	saves := map[uint64]int{}
+	for _, ai := range hist {
+		a := acts[ai]
+		switch a.kind {
+		case "reopen":
+			set["reopen"] = true
+		case "crashsave", "crashmeta", "crashstate":
+			set["crash"] = true
+		}
+		if a.kind != "save" && a.kind != "crashsave" {
+			continue
+		}
+		saves[a.h]++
+		if saves[a.h] > 1 {
+			set["resave-of-a-height"] = true
+		}
+		b := a.block()
+		switch {
+		case len(b.sig) == 0 && len(b.h.Signature) == 0:
+			set["sig-arg-and-header-sig-empty"] = true
+		case len(b.sig) == 0:
+			set["sig-arg-empty"] = true
+		case len(b.h.Signature) == 0:
+			set["header-sig-empty"] = true
+		case bytes.Equal(b.sig, b.h.Signature):
+			set["sig-arg-equals-header-sig"] = true
+		default:
+			set["sig-arg-differs-from-header-sig"] = true
+		}
+		if len(b.d.Txs) == 0 {
+			set["data-without-txs"] = true
+		}
+		if b.d.Metadata == nil {
+			set["data-without-metadata"] = true
+		}
+		if !bytes.Equal(b.d.DACommitment(), b.h.DataHash) {
+			set["data-not-matching-datahash"] = true
+		}
+	}
+	out := make([]string, 0, len(set))
+	for k := range set {
+		out = append(out, k)
+	}
+	sort.Strings(out)
+	return out
+}
+
 func mkState(v int) types.State {
 	return types.State{ChainID: "c14", InitialHeight: 1, LastBlockHeight: uint64(v), LastBlockTime: time.Unix(0, int64(1000+v)).UTC(), AppHash: []byte{byte(v)}, DAHeight: uint64(10 * v)}
 }
@@ -147,7 +362,7 @@ func (m *model) clone() *model {
 func (m *model) apply(a action) {
 	switch a.kind {
 	case "save", "crashsave":
-		b := mkBlock(a.h, a.v)
+		b := a.block()
 		m.blocks[a.h] = b
 		m.byHash[string(b.h.Hash())] = a.h
 	case "height":
@@ -179,7 +394,9 @@ func observe(ctx context.Context, s store.Store, maxH uint64, metaKeys []string)
 		if err != nil {
 			fmt.Fprintf(&sb, "h%d=none|", i)
 		} else {
-			fmt.Fprintf(&sb, "h%d=%x|", i, hh.Hash())
+			// the whole signed header as written (header fields, embedded signature, signer), not only its hash
+			hb, _ := hh.MarshalBinary()
+			fmt.Fprintf(&sb, "h%d=%x/%x|", i, hh.Hash(), hb)
 		}
 		sg, err := s.GetSignature(ctx, i)
 		if err != nil {
@@ -215,8 +432,9 @@ func (m *model) expect(maxH uint64, metaKeys []string) string {
 			continue
 		}
 		db, _ := b.d.MarshalBinary()
+		hb, _ := b.h.MarshalBinary()
 		// the header is stored with its own Signature field; the separate signature record is the argument
-		fmt.Fprintf(&sb, "b%d=%x/%x/%x|h%d=%x|s%d=%x|", i, b.h.Hash(), db, b.h.Signature, i, b.h.Hash(), i, []byte(b.sig))
+		fmt.Fprintf(&sb, "b%d=%x/%x/%x|h%d=%x/%x|s%d=%x|", i, b.h.Hash(), db, b.h.Signature, i, b.h.Hash(), hb, i, []byte(b.sig))
 	}
 	if m.state == nil {
 		sb.WriteString("state=none|")
@@ -253,7 +471,7 @@ func byHashCheck(ctx context.Context, s store.Store, m *model) string {
 		}
 		db, _ := d.MarshalBinary()
 		wb, _ := b.d.MarshalBinary()
-		if !bytes.Equal(hd.Hash(), b.h.Hash()) || !bytes.Equal(db, wb) {
+		if !bytes.Equal(hd.Hash(), b.h.Hash()) || !bytes.Equal(db, wb) || !bytes.Equal(hd.Signature, b.h.Signature) {
 			return fmt.Sprintf("GetBlockByHash(block at %d) returned a different block", h)
 		}
 		sg, err := s.GetSignatureByHash(ctx, b.h.Hash())
@@ -288,7 +506,7 @@ func runHistory(acts []action, hist []int, maxH uint64, metaKeys []string) resul
 		crashed := false
 		switch a.kind {
 		case "save":
-			b := mkBlock(a.h, a.v)
+			b := a.block()
 			if err := s.SaveBlockData(ctx, b.h, b.d, &b.sig); err != nil {
 				return result{clause: "op-error", msg: err.Error(), trace: trace}
 			}
@@ -326,7 +544,7 @@ func runHistory(acts []action, hist []int, maxH uint64, metaKeys []string) resul
 				defer close(done)
 				switch a.kind {
 				case "crashsave":
-					b := mkBlock(a.h, a.v)
+					b := a.block()
 					_ = s.SaveBlockData(ctx, b.h, b.d, &b.sig)
 				case "crashmeta":
 					_ = s.SetMetadata(ctx, a.key, a.val)
@@ -383,7 +601,24 @@ func runHistory(acts []action, hist []int, maxH uint64, metaKeys []string) resul
 		}
 	}
 	// the state key is the durable image plus whatever the store object keeps in memory (nothing, today)
-	return result{key: "img:" + kv.Canon() + "|mem:" + memState, trace: trace, nWrites: kv.NumWrites()}
+	// (hashed: millions of histories are held per level, the image itself is a few kilobytes of hex)
+	sum := sha256.Sum256([]byte("img:" + kv.Canon() + "|mem:" + memState))
+	return result{key: hex.EncodeToString(sum[:16]), trace: trace, nWrites: kv.NumWrites()}
+}
+
+// search is one explicit-state search: its alphabet, the heights and metadata keys every getter is called on, its depth.
+type search struct {
+	name     string
+	acts     []action
+	maxH     uint64
+	metaKeys []string
+	depth    int
+}
+
+// replayable history: which search, and the action indices.
+type histRef struct {
+	Search string `json:"search"`
+	Hist   []int  `json:"hist"`
 }
 
 func TestCheck(t *testing.T) {
@@ -391,46 +626,115 @@ func TestCheck(t *testing.T) {
 	maxH := vf.Pick(r, uint64(2), uint64(3))
 	metaKeys := vf.Pick(r, []string{"d", "last-submitted-header-height", "rhb/1/h"},
 		[]string{"d", "l", "last-submitted-header-height", "last-submitted-data-height", "rhb/1/h", "rhb/1/d"})
-	depth := vf.Pick(r, 5, 6)
-	acts := alphabet(maxH, metaKeys)
+	relFull := vf.Pick(r, []uint64{1}, []uint64{1, 2})
+	relAxis := vf.Pick(r, []uint64{2}, nil)
+	relCrash := []uint64{1}
+	relCrashAxisOnly := vf.Pick(r, true, false)
+	searches := []search{
+		{"base", alphabet(maxH, metaKeys), maxH, metaKeys, vf.Pick(r, 5, 6)},
+		{"relations", relAlphabet(relFull, relAxis, relCrash, relCrashAxisOnly), 2, []string{"d"}, vf.Pick(r, 3, 3)},
+	}
 	r.Assume = []string{
 		"datastore contract: a single Put/Delete and one Batch.Commit are atomic and durable (go-datastore/badger), modelled by the logging KV double",
 		"by-hash reads of a superseded header are unspecified",
 		"metadata keys are the shapes the node uses (d, l, last-submitted-*, rhb/<h>/{h,d})",
+		"SaveBlockData arguments are enumerated as shapes, not as arbitrary bytes: 3 headers (two data hashes and the no-transactions hash), 3 signature values including the empty one used independently for header.Signature and for the signature argument, 5 data values (two transaction lists with/without metadata, no transactions with/without metadata); a store whose behaviour depends on a relation between arguments that these shapes do not realise is outside the bound",
 	}
 	if r.ReplayPath() != "" {
-		var hist []int
-		if _, err := r.LoadReplay(&hist); err != nil {
-			r.EngineError(err.Error())
-		} else if res := runHistory(acts, hist, maxH, metaKeys); res.clause != "" {
-			r.Report(vf.Violation{Clause: res.clause, Msg: res.msg, History: hist})
+		var ref histRef
+		if _, err := r.LoadReplay(&ref); err != nil {
+			// replay artefacts written before the relations search existed are bare index lists of the base search
+			ref = histRef{Search: "base"}
+			if _, err2 := r.LoadReplay(&ref.Hist); err2 != nil {
+				r.EngineError(err.Error())
+			}
+		}
+		found := false
+		for _, sp := range searches {
+			if sp.name != ref.Search {
+				continue
+			}
+			found = true
+			if res := runHistory(sp.acts, ref.Hist, sp.maxH, sp.metaKeys); res.clause != "" {
+				r.Report(vf.Violation{Clause: res.clause, Tags: tagsOf(sp.name, sp.acts, ref.Hist), Msg: res.msg + "\n history: " + strings.Join(res.trace, " ; "), History: ref})
+			}
+		}
+		if !found {
+			r.EngineError("replay names an unknown search: " + ref.Search)
 		}
 		r.Finish(vf.Coverage{Evaluations: 1, DistinctNontrivial: 1})
 		return
 	}
-	st := explore.BFS(explore.BFSConfig{Depth: depth, Actions: len(acts), Deadline: vf.Pick(r, 90*time.Second, 20*time.Minute)}, func(hist []int) explore.Step {
-		res := runHistory(acts, hist, maxH, metaKeys)
-		if res.prune {
-			return explore.Step{Prune: true}
-		}
-		if res.clause != "" {
-			r.Report(vf.Violation{Clause: res.clause, Msg: res.msg + "\n history: " + strings.Join(res.trace, " ; "), Cost: len(hist), History: hist})
-			return explore.Step{Prune: true}
-		}
-		if len(hist) == 3 || len(hist) == depth {
-			r.Sample(strings.Join(res.trace, " ; "))
-		}
-		r.Outcome(res.key)
-		return explore.Step{Key: res.key}
-	})
 	var caps []string
-	if st.Capped != "" {
-		caps = append(caps, st.Capped)
+	var totStates, totTrans int64
+	exhaustive := true
+	perSearch := map[string]any{}
+	relSamples := []string{}
+	for _, sp := range searches {
+		sp := sp
+		var mu sync.Mutex
+		st := explore.BFS(explore.BFSConfig{Depth: sp.depth, Actions: len(sp.acts), Deadline: vf.Pick(r, 5*time.Minute, 20*time.Minute)}, func(hist []int) explore.Step {
+			res := runHistory(sp.acts, hist, sp.maxH, sp.metaKeys)
+			if res.prune {
+				return explore.Step{Prune: true}
+			}
+			if res.clause != "" {
+				r.Report(vf.Violation{Clause: res.clause, Tags: tagsOf(sp.name, sp.acts, hist), Msg: res.msg + "\n history: " + strings.Join(res.trace, " ; "), Cost: len(hist),
+					History: histRef{sp.name, append([]int(nil), hist...)}})
+				return explore.Step{Prune: true}
+			}
+			if len(hist) == 3 || len(hist) == sp.depth {
+				r.Sample(strings.Join(res.trace, " ; "))
+				if sp.name == "relations" {
+					mu.Lock()
+					if len(relSamples) < 6 && hist[0] != hist[1] && hist[1]%7 == 3 {
+						relSamples = append(relSamples, strings.Join(res.trace, " ; "))
+					}
+					mu.Unlock()
+				}
+			}
+			r.Outcome(res.key)
+			return explore.Step{Key: res.key}
+		})
+		if st.Capped != "" {
+			caps = append(caps, sp.name+": "+st.Capped)
+		}
+		// complete = every level up to the depth bound was expanded, or the frontier ran empty before (fixpoint)
+		fix := st.Capped == "" && len(st.PerLevel) > 0 && st.PerLevel[len(st.PerLevel)-1] == 0
+		if st.DepthDone != sp.depth && !fix {
+			exhaustive = false
+		}
+		totStates += st.States
+		totTrans += st.Transitions
+		nSave, nCrash := 0, 0
+		for _, a := range sp.acts {
+			switch a.kind {
+			case "save":
+				nSave++
+			case "crashsave":
+				nCrash++
+			}
+		}
+		perSearch[sp.name] = map[string]any{"depth": st.DepthDone, "alphabet": len(sp.acts), "save_actions": nSave, "crash_in_save_actions": nCrash,
+			"heights_read": sp.maxH, "states": st.States, "transitions": st.Transitions, "states_per_level": st.PerLevel, "fixpoint": fix}
 	}
+	sort.Strings(relSamples)
 	r.Finish(vf.Coverage{
-		Evaluations: st.Transitions, DistinctNontrivial: st.States, States: st.States, Transitions: st.Transitions,
-		Rule:       "every operation history up to the depth bound over the alphabet (save block h×{same,same-hash-other-signature,other-hash}, set height, update state, set metadata, reopen, crash before the k-th durable write of a save/metadata/state write then reopen), executed on a fresh real DefaultStore; histories are merged when the durable key/value image and the in-memory fields of the store object (reflection hook; none today) are identical; distinct = distinct images",
-		Exhaustive: st.DepthDone == depth, Caps: caps,
-		Bounds:     map[string]any{"depth": st.DepthDone, "heights": maxH, "alphabet": len(acts), "metadata_keys": metaKeys, "states_per_level": st.PerLevel},
+		Evaluations: totTrans, DistinctNontrivial: int64(r.DistinctOutcomes()), States: totStates, Transitions: totTrans,
+		Rule: "two explicit-state searches, each over every operation history up to its depth bound, executed on a fresh real DefaultStore and compared getter by getter " +
+			"(block, whole signed header, signature by height; block and signature by hash; height, state, metadata) with a map model after every history. " +
+			"base: save block h×{same,same-hash-other-signature,other-hash} with signature argument = header.Signature, set height, update state, set metadata, reopen, " +
+			"crash before the k-th durable write of a save/metadata/state write then reopen. " +
+			"relations: saves whose ARGUMENTS are spelled out — header ∈ {data hash A, data hash B, the no-transactions hash} × header.Signature ∈ {empty,P,Q} × signature argument ∈ {empty,P,Q} " +
+			"(equal / different / empty, both ways) × data ∈ {txs A without metadata, txs A, txs B, no txs without metadata (empty value), no txs with metadata} (matching / not matching header.DataHash), " +
+			"same values at every height — as saves and resaves in any order, with reopen and with a crash before the k-th (k<4) durable write of such a save; the producer's early save " +
+			"(previous signature in the header, empty argument, data without metadata) followed by the final save (both signatures equal, metadata set) is one of the length-2 histories. " +
+			"Histories are merged when the durable key/value image and the in-memory fields of the store object (reflection hook; none today) are identical; " +
+			"distinct = distinct images over both searches; states/transitions = sums over both searches",
+		Exhaustive: exhaustive, Caps: caps,
+		Bounds: map[string]any{"heights": maxH, "metadata_keys": metaKeys, "searches": perSearch,
+			"relations_heights_all_shapes": relFull, "relations_heights_signature_axis_only": relAxis, "relations_heights_crash_in_save": relCrash, "relations_crash_on_signature_axis_shapes_only": relCrashAxisOnly,
+			"shapes_per_height": len(allShapes()), "signature_axis_shapes": len(axisShapes())},
+		Extra: map[string]any{"relations_samples": relSamples},
 	})
 }
